@@ -18,7 +18,10 @@ def fresh_wt():
     if not os.path.isdir(WT):
         r = sh(f"git -C /repo worktree add -f {WT} HEAD")
         assert r.returncode == 0, r.stderr
-    sh(f"git -C {WT} checkout -q --detach $(git -C /repo rev-parse HEAD) && git -C {WT} checkout -- . && git -C {WT} clean -fdq")
+    # -f: discard whatever a previous patch left behind even when HEAD has moved since
+    r = sh(f"git -C {WT} checkout -q -f --detach $(git -C /repo rev-parse HEAD) && git -C {WT} clean -fdq")
+    assert r.returncode == 0, r.stderr
+    assert sh(f"git -C {WT} status --porcelain").stdout.strip() == "", "scratch worktree is not clean"
 
 
 def demo(d):
